@@ -131,6 +131,8 @@ class FnSpec:
         self.nloops = None      # expected number of loops (None = don't check)
         self.wraps = []         # (id, occ, anchor, text)  value-naming hint
         self.closures = []      # (ordinal, header_text, clauses[(id,kind,text)])
+        self.arm_wraps = []     # (id, match_ordinal, arm_ordinal, text)
+        self.tail_wraps = []    # (id, occ, opener_anchor, text)
         self.extra_sig = []     # raw text appended in clause position (e.g. 'no_unwind')
 
     def loop(self, n):
@@ -147,10 +149,143 @@ class FnSpec:
                 ids.append(l['decreases'][0])
         ids += [h[0] for h in self.hints]
         ids += [w[0] for w in self.wraps]
+        ids += [w[0] for w in self.arm_wraps]
+        ids += [w[0] for w in self.tail_wraps]
         for _, _, cl in self.closures:
             ids += [c[0] for c in cl]
         return ids
 
+
+
+MATCH_RX = re.compile(r"(?<![\w'])match\b")
+
+
+def find_matches(masked, bo, end):
+    """[(kw_start, body_open)] of `match` expressions in masked[bo:end], textual order"""
+    res = []
+    for m in MATCH_RX.finditer(masked, bo, end):
+        depth = 0
+        k = m.end()
+        found = None
+        while k < end:
+            c = masked[k]
+            if c in '([':
+                depth += 1
+            elif c in ')]':
+                depth -= 1
+                if depth < 0:
+                    break
+            elif c == '{' and depth == 0:
+                found = k
+                break
+            elif c == ';' and depth == 0:
+                break
+            k += 1
+        if found is not None:
+            res.append((m.start(), found))
+    return res
+
+
+def match_arms(masked, lb):
+    """[(body_start, body_end)] of the arms of the match whose '{' is at lb (body = expression after =>)"""
+    close = match_close(masked, lb)
+    arms = []
+    k = lb + 1
+    depth = 0
+    while k < close:
+        c = masked[k]
+        if c in '([{':
+            depth += 1
+        elif c in ')]}':
+            depth -= 1
+        elif depth == 0 and c == '=' and masked[k + 1] == '>':
+            a = k + 2
+            while masked[a].isspace():
+                a += 1
+            if masked[a] == '{':
+                b = match_close(masked, a) + 1
+            else:
+                d2 = 0
+                b = a
+                while b < close:
+                    ch = masked[b]
+                    if ch in '([{':
+                        d2 += 1
+                    elif ch in ')]}':
+                        d2 -= 1
+                    elif ch == ',' and d2 == 0:
+                        break
+                    b += 1
+                # trim trailing whitespace
+                while masked[b - 1].isspace():
+                    b -= 1
+            arms.append((a, b))
+            k = b
+            continue
+        k += 1
+    return arms
+
+
+BLOCKLIKE = re.compile(r"(if|match|for|while|loop|unsafe)\b|\{|'[a-z_]\w*\s*:")
+
+
+def _skip_blocklike(masked, a, end):
+    """a points at a block-like expression (if/match/for/while/loop/{); return index just past it (incl. else chains)"""
+    k = a
+    while True:
+        # find the opening brace at depth 0
+        depth = 0
+        while k < end:
+            c = masked[k]
+            if c in '([':
+                depth += 1
+            elif c in ')]':
+                depth -= 1
+            elif c == '{' and depth == 0:
+                break
+            k += 1
+        k = match_close(masked, k) + 1
+        m = re.match(r'\s*else\b', masked[k:end])
+        if m:
+            k += m.end()
+            continue
+        return k
+
+
+def block_tail(masked, lb):
+    """(a, b) span of the tail expression of the block whose '{' is at lb; None if the block ends with ';'"""
+    close = match_close(masked, lb)
+    # position after the last depth-0 ';'
+    depth = 0
+    last = lb + 1
+    k = lb + 1
+    while k < close:
+        c = masked[k]
+        if c in '([{':
+            depth += 1
+        elif c in ')]}':
+            depth -= 1
+        elif c == ';' and depth == 0:
+            last = k + 1
+        k += 1
+    a = last
+    while True:
+        while a < close and masked[a].isspace():
+            a += 1
+        if a >= close:
+            return None
+        m = BLOCKLIKE.match(masked, a)
+        if m:
+            e = _skip_blocklike(masked, a, close)
+            rest = masked[e:close].strip()
+            if rest and not rest.startswith('.') and not rest.startswith('?'):
+                a = e
+                continue
+        break
+    b = close
+    while masked[b - 1].isspace():
+        b -= 1
+    return a, b
 
 CLOSURE_RX = re.compile(r'(?<![\w)\]])\|([^|\n]*)\|')
 
@@ -252,13 +387,13 @@ def splice_fn(text, spec, lo=0, hi=None):
             add(lb + 1, '\n' + _ind(p, lind + '    '))
     # hints
     for cid, where, occ, anchor, t in spec.hints:
-        pos = _find_anchor(text, bo, end, anchor, occ, spec.name)
+        pos, pend = _find_anchor(text, bo, end, anchor, occ, spec.name, True)
         if where == 'before':
             ls = text.rfind('\n', 0, pos) + 1
             hind = re.match(r'[ \t]*', text[ls:]).group(0)
             add(ls, mark(_ind(t, hind), cid) + '\n')
         elif where == 'after':
-            le = text.find('\n', pos + len(anchor))
+            le = text.find('\n', pend)
             ls = text.rfind('\n', 0, pos) + 1
             hind = re.match(r'[ \t]*', text[ls:]).group(0)
             add(le + 1, mark(_ind(t, hind), cid) + '\n')
@@ -266,9 +401,30 @@ def splice_fn(text, spec, lo=0, hi=None):
             raise LostAnchor('bad hint position %r' % where)
     # value-naming wraps:  E  ->  { let r__ = E; <text> r__ }
     for cid, occ, anchor, t in spec.wraps:
-        pos = _find_anchor(text, bo, end, anchor, occ, spec.name)
+        pos, pend = _find_anchor(text, bo, end, anchor, occ, spec.name, True)
         add(pos, '{ let r__ = ')
-        add(pos + len(anchor), '; ' + mark(t, cid) + ' r__ }')
+        add(pend, '; ' + mark(t, cid) + ' r__ }')
+    if spec.arm_wraps:
+        ms = find_matches(masked, bo, end)
+        for cid, mo, ao, t in spec.arm_wraps:
+            if mo >= len(ms):
+                raise LostAnchor('fn %s: match %d not found (%d matches)' % (spec.name, mo, len(ms)))
+            arms = match_arms(masked, ms[mo][1])
+            if ao >= len(arms):
+                raise LostAnchor('fn %s: match %d has %d arms, arm %d wanted' % (spec.name, mo, len(arms), ao))
+            a, b = arms[ao]
+            add(a, '{ let r__ = ')
+            add(b, '; ' + mark(t, cid) + ' r__ }')
+    for cid, occ, anchor, t in spec.tail_wraps:
+        pos, pend = _find_anchor(text, bo - 1, end, anchor, occ, spec.name, True)
+        lb = pend - 1
+        if masked[lb] != '{':
+            raise LostAnchor('fn %s: tail anchor %r must end with the block opener' % (spec.name, anchor))
+        tl = block_tail(masked, lb)
+        if tl is None:
+            raise LostAnchor('fn %s: block after %r has no tail expression' % (spec.name, anchor))
+        add(tl[0], '{ let r__ = ')
+        add(tl[1], '; ' + mark(t, cid) + ' r__ }')
     # closure contracts
     if spec.closures:
         cls = find_closures(masked, bo, end)
@@ -311,13 +467,18 @@ def _expr_end(masked, k, end):
     return end
 
 
-def _find_anchor(text, bo, end, anchor, occ, fname):
+def _find_anchor(text, bo, end, anchor, occ, fname, want_end=False):
+    """anchor matching is whitespace-flexible: a run of whitespace in the anchor matches any run in the code"""
+    toks = anchor.split()
+    rx = re.compile(r'\s+'.join(re.escape(t) for t in toks))
     pos = bo
+    m = None
     for _ in range(occ + 1):
-        pos = text.find(anchor, pos + 1, end)
-        if pos < 0:
+        m = rx.search(text, pos + 1, end)
+        if not m:
             raise LostAnchor('fn %s: anchor %r (occurrence %d) not found' % (fname, anchor, occ))
-    return pos
+        pos = m.start()
+    return (m.start(), m.end()) if want_end else m.start()
 
 
 def _ind(t, indent):
